@@ -105,6 +105,34 @@ fn unit_main() {
         let out = match parts[0] {
             "m" => matcher(&parts),
             "pretty" => pretty(&parts),
+            "prettyc" => {
+                // the same with colours forced on (what `Compile::run_exit_on_error` and terminals use); the styling
+                // escape sequences are removed again, the text and its alignment must be the same
+                colored::control::set_override(true);
+                let r = pretty(&parts);
+                colored::control::set_override(false);
+                match r.strip_prefix("P ") {
+                    Some(h) => {
+                        let bytes = unhex(h).unwrap_or_default();
+                        let s = String::from_utf8_lossy(&bytes).to_string();
+                        let mut out = String::new();
+                        let mut it = s.chars().peekable();
+                        while let Some(c) = it.next() {
+                            if c == '\u{1b}' && it.peek() == Some(&'[') {
+                                for d in it.by_ref() {
+                                    if d == 'm' {
+                                        break;
+                                    }
+                                }
+                            } else {
+                                out.push(c);
+                            }
+                        }
+                        format!("P {}", hex(out.as_bytes()))
+                    }
+                    None => r,
+                }
+            }
             "hdr" => header(&parts),
             _ => "BADOP".into(),
         };
@@ -221,8 +249,16 @@ fn main() {
         // compile <src> <dst> <hexprefix|-> <derives csv|->
         let prefix = String::from_utf8(unhex(&args[4]).unwrap()).unwrap();
         let mut c = peginator_codegen::Compile::file(&args[2]).destination(&args[3]).prefix(prefix);
+        // optional 7th argument `uctx-first:<type>` / `uctx-last:<type>`: the builder calls in either order
+        let uctx = if args.len() >= 7 { args[6].split_once(':') } else { None };
+        if let Some(("uctx-first", ty)) = uctx {
+            c = c.user_context_type(ty);
+        }
         if args[5] != "-" {
             c = c.derives(args[5].split(',').map(|s| s.to_string()).collect());
+        }
+        if let Some(("uctx-last", ty)) = uctx {
+            c = c.user_context_type(ty);
         }
         if args.len() >= 7 && args[6] == "fmt" {
             c = c.format();
